@@ -135,4 +135,34 @@ def loadPath (v : Fill) (deflim : Option Int) (traj order energy : Option (List 
 def loadStoredPath (v : Fill) (deflim : Option Int) (s : Stored) : Except Err (PathObj LFrame) :=
   loadPath v deflim (some s.traj) (some s.order) (some s.energy) s.accepted
 
+/-! ### load_paths_from_disk -/
+
+/-- what `load_path` finds in `load_dir/<number>`: traj.txt, order.txt, energy.txt (`none` = absent)
+    and the names in `accepted/` -/
+structure Archive where
+  traj : Option (List Line)
+  order : Option (List Line)
+  energy : Option (List Line)
+  files : List String
+
+/-- a path as `load_paths_from_disk` hands it on -/
+structure LoadedPath where
+  number : Nat
+  status : String           -- `generated[0]`: "re" after a restart, "ld" otherwise
+  path : PathObj LFrame
+
+/-- `load_paths_from_disk(config)`: `for pnumber in config["current"]["active"]: new_path = load_path(…)`,
+    then `generated = (status, nan, 0, 0)`, `maxlen = simulation.tis_set.maxlength`, `path_number = pnumber`;
+    the first exception ends it -/
+def loadPathsFromDisk (v : Fill) (deflim : Option Int) (maxlength : Option Int) (restarted : Bool)
+    (disk : Nat → Archive) : List Nat → Except Err (List LoadedPath)
+  | [] => .ok []
+  | pn :: rest =>
+    match loadPath v deflim (disk pn).traj (disk pn).order (disk pn).energy (disk pn).files with
+    | .error e => .error e
+    | .ok p =>
+      match loadPathsFromDisk v deflim maxlength restarted disk rest with
+      | .error e => .error e
+      | .ok ps => .ok ({ number := pn, status := if restarted then "re" else "ld", path := { p with maxlen := maxlength } } :: ps)
+
 end Infretis.Store
